@@ -383,13 +383,45 @@ theorem nsmap_not_observed {Doc R} (decls : Doc → NsMap) (bind : Doc → R) (p
     (∀ m, parseCall decls bind p doc (some m) = (p, bind doc, some (registerAll m (decls doc)))) := by
   cases arg <;> exact ⟨rfl, fun _ => rfl⟩
 
-/-- **recorder_per_document** (former finding C14-F4): when the caller passes no
-map, the instance records the prefixes of the current document only — whatever
-it recorded before: `parser.ns_map` after a parse is the same on a shared and on
-a fresh parser instance. -/
-theorem recorder_per_document {Doc R} (decls : Doc → NsMap) (bind : Doc → R) (p p' : ParserInst)
-    (doc : Doc) :
-    (parseCall decls bind p doc none).1 = (parseCall decls bind p' doc none).1 := rfl
+/-- **recorder_per_document** (former finding C14-F4), with content: after *any*
+history of parses on one parser instance (with or without caller-supplied maps),
+a parse that is given no map leaves in `parser.ns_map` exactly the declarations of
+that last document — every prefix bound to its *first* binding in the document,
+no prefix of any earlier document. -/
+theorem recorder_per_document {Doc R} (decls : Doc → NsMap) (bind : Doc → R) (p : ParserInst)
+    (h : List (Doc × Option NsMap)) (d : Doc) (pfx : Option Str) :
+    (recRun decls bind p (h ++ [(d, none)])).1.nsMap.lookup pfx = (decls d).lookup pfx := by
+  rw [recRun_last, lookup_registerAll]
+  simp [List.lookup]
+
+/-- hence the instance attribute is the same on a shared and on a fresh parser -/
+theorem recorder_shared_eq_fresh {Doc R} (decls : Doc → NsMap) (bind : Doc → R) (p : ParserInst)
+    (h : List (Doc × Option NsMap)) (d : Doc) :
+    (recRun decls bind p (h ++ [(d, none)])).1 = (parseCall decls bind ⟨[]⟩ d none).1 := by
+  rw [recRun_last]
+  rfl
+
+/-- and what the calls return (parse result, caller's map) never depends on the
+instance they run on: for every history, starting from any two instances -/
+theorem recorder_outputs_independent {Doc R} (decls : Doc → NsMap) (bind : Doc → R) :
+    ∀ (h : List (Doc × Option NsMap)) (p p' : ParserInst),
+      (recRun decls bind p h).2 = (recRun decls bind p' h).2
+  | [], _, _ => rfl
+  | (d, arg) :: rest, p, p' => by
+    simp only [recRun]
+    cases arg with
+    | none => simp only [parseCall]
+    | some m =>
+      simp only [parseCall]
+      rw [recorder_outputs_independent decls bind rest p p']
+
+/-- a caller-supplied map keeps its own bindings and gains the first binding of every
+other prefix of the document -/
+theorem recorder_caller_map (decls m : NsMap) (pfx : Option Str) :
+    (registerAll m decls).lookup pfx = match m.lookup pfx with
+      | some u => some u
+      | none => decls.lookup pfx :=
+  lookup_registerAll decls m pfx
 
 /-- the former witness: a document binding `p=urn:a`, then one binding `p=urn:b` -/
 example :
